@@ -412,7 +412,8 @@ static int errno_by_name(const char *s) {
              {"EINVAL", EINVAL}, {"EEXIST", EEXIST}, {"EINTR", EINTR},   {"EROFS", EROFS},
              {"ENOTDIR", ENOTDIR}, {"EISDIR", EISDIR}, {"EMFILE", EMFILE}, {"EBUSY", EBUSY},
              {"ENOTSUP", ENOTSUP}, {"ELOOP", ELOOP}, {"ENOLCK", ENOLCK}, {"EDQUOT", EDQUOT},
-             {"ENOTEMPTY", ENOTEMPTY}, {"EFBIG", EFBIG}, {"EBADF", EBADF}, {"ENOMEM", ENOMEM}};
+             {"ENOTEMPTY", ENOTEMPTY}, {"EFBIG", EFBIG}, {"EBADF", EBADF}, {"ENOMEM", ENOMEM},
+             {"ETXTBSY", ETXTBSY}, {"ENAMETOOLONG", ENAMETOOLONG}, {"EMLINK", EMLINK}};
     for (size_t i = 0; i < sizeof t / sizeof t[0]; i++)
         if (strcmp(t[i].n, s) == 0) return t[i].v;
     return atoi(s);
